@@ -344,7 +344,7 @@ func isLogCall(e ast.Expr) bool {
 		return false
 	}
 	n := callName(c)
-	return strings.HasPrefix(n, "log.") || strings.HasPrefix(n, "stats.Record")
+	return strings.HasPrefix(n, "log.") || strings.HasPrefix(n, "stats.Record") || n == "vhook"
 }
 
 // exprLine renders an expression with function literals replaced by "func{…}" and returns them.
@@ -474,6 +474,11 @@ func (p *pkgInfo) skel(stmts []ast.Stmt, depth int, out *[]string) {
 			p.skel([]ast.Stmt{x.Stmt}, depth, out)
 		case *ast.DeclStmt:
 			simple(x, "")
+		case *ast.DeferStmt:
+			if isLogCall(x.Call) {
+				continue // instrumentation
+			}
+			simple(st, "")
 		default: // assign, incdec, send, return, go, defer, branch
 			simple(st, "")
 		}
@@ -946,6 +951,56 @@ func main() {
 		{"skel_doCall", "", "doCall"},
 	} {
 		f.defSkeleton(p, sk.name, sk.recv, sk.fn)
+	}
+
+	// 13. every use of the connection object, with whether the write lock is held at that point
+	f.comment("uses of c.conn in package jsonrpc: \"<function>: <method or assign> locked=<bool>\" (function literals start unlocked)")
+	{
+		var uses []string
+		var scan func(fname string, body *ast.BlockStmt)
+		scan = func(fname string, body *ast.BlockStmt) {
+			locked := false
+			var visit func(n ast.Node) bool
+			visit = func(n ast.Node) bool {
+				switch x := n.(type) {
+				case *ast.FuncLit:
+					scan(fname+".func", x.Body)
+					return false
+				case *ast.DeferStmt:
+					if callName(x.Call) == "c.writeLk.Unlock" {
+						return false // stays locked until the function returns
+					}
+				case *ast.CallExpr:
+					name := callName(x)
+					switch name {
+					case "c.writeLk.Lock":
+						locked = true
+					case "c.writeLk.Unlock":
+						locked = false
+					}
+					if name == "c.resetReadDeadline" || name == "c.setupPings" {
+						uses = append(uses, fmt.Sprintf("%s: call %s locked=%v", fname, strings.TrimPrefix(name, "c."), locked))
+					}
+					if strings.HasPrefix(name, "c.conn.") {
+						uses = append(uses, fmt.Sprintf("%s: %s locked=%v", fname, strings.TrimPrefix(name, "c.conn."), locked))
+					}
+				case *ast.AssignStmt:
+					for _, l := range x.Lhs {
+						if selString(l) == "c.conn" {
+							uses = append(uses, fmt.Sprintf("%s: assign locked=%v", fname, locked))
+						}
+					}
+				}
+				return true
+			}
+			ast.Inspect(body, visit)
+		}
+		for _, fd := range p.allFuncs() {
+			if fd.Body != nil && fd.Recv != nil && funcKey(fd)[:len("wsConn")] == "wsConn" {
+				scan(funcKey(fd), fd.Body)
+			}
+		}
+		f.defStrList("connUses", uses)
 	}
 
 	// 12. sub-packages: httpio (reader params) and auth
